@@ -494,6 +494,19 @@ def check_narrow_compare(ck, prog, config, clause, units, what='file-supplied'):
     for f in sorted(prog.funcs.values(), key=lambda x: x.qname):
         if not any(f.unit.endswith(u) for u in units):
             continue
+        # locals with exactly one definition (their initialiser, no other assignment)
+        single = {}
+        assigned = set()
+        for ex in all_exprs(f):
+            for nd in walk(ex):
+                if (nd.k == 'bin' and nd.op.endswith('=') and nd.op not in ('==', '!=', '<=', '>=')) or \
+                        (nd.k == 'un' and nd.op in ('++', '--', '&')):
+                    l_ = strip(nd.a[0])
+                    if l_ is not None and l_.k == 'var':
+                        assigned.add(l_.decl)
+        for st_ in walk_stmts(f.body):
+            if st_.k == 'decl' and st_.e is not None and st_.var.decl not in assigned:
+                single[st_.var.decl] = st_.e
         for ex in all_exprs(f):
             for nd in walk(ex):
                 if nd.k == 'bin' and nd.op in ('==', '!=', '<', '>', '<=', '>='):
@@ -508,6 +521,24 @@ def check_narrow_compare(ck, prog, config, clause, units, what='file-supplied'):
                         ws, wd = type_width(src.t, src.dt), type_width(b.t, b.dt)
                         if ws and wd and wd < ws and const_value(src) is None:
                             bad.append((f, nd, src, b))
+                    # an operand that is a local whose only definition narrows a wider integer expression
+                    for a in nd.a:
+                        v = strip(a)
+                        while v is not None and v.k == 'cast' and v.a:
+                            v = strip(v.a[0])
+                        if v is None or v.k != 'var' or v.decl not in single:
+                            continue
+                        d = single[v.decl]
+                        wv = type_width(v.t, v.dt)
+                        inner = d
+                        while inner is not None and inner.k == 'cast' and inner.a and inner.macro != 'explicit':
+                            inner = inner.a[0]
+                        wi = type_width(inner.t, inner.dt) if inner is not None else None
+                        isint = lambda t: t is not None and not any(x in (t or '') for x in ('double', 'float', '*'))
+                        if wv and wi and wv < wi and const_value(inner) is None and isint(inner.t) and \
+                                inner.k in ('bin', 'un') and any(type_width(o.t, o.dt) == wi and const_value(o) is None
+                                                                 for o in inner.a):
+                            bad.append((f, nd, inner, v))
     for f, nd, src, b in bad:
         ck.ob(clause, 'R9.narrow-compare', f.name, 'cmp@%s' % show(nd)[:40], False,
               '`%s`: the operand %s (%s) is converted to %s before the comparison; values that differ by a multiple of '
@@ -868,3 +899,91 @@ def check_const_input(ck, prog, config, clause, unit_filter):
               '%d function(s) with a pointer-to-const input: none writes through it or through an alias of it' % n,
               config=config)
     ck.min_instances('functions with a const input pointer in the selected units', n, 3)
+
+
+# ------------------------------------------------------------------ R7.hash-owner
+# who may begin, end or finalise the two running digests of a context (confirmed on the reference tree)
+HASH_OWNERS = {
+    'check_chunk_hash': {'zck_clear': 'context clean-up', 'comp_end_dchunk': 're-initialised after a chunk was verified',
+                         'comp_read': 'initialised when the first chunk is entered / lazily before the first bytes',
+                         'dl_write_range': 'initialised when a chunk of the response is begun',
+                         'validate_checksums': 'initialised per chunk of the scan',
+                         'validate_chunk': 'finalised for the verdict', 'zck_free': 'context clean-up'},
+    'check_full_hash': {'zck_clear': 'context clean-up', 'read_header_from_file': 'header digest',
+                        'validate_header': 'finalised for the header verdict',
+                        'validate_checksums': 'initialised before and after the scan',
+                        'validate_file': 'finalised for the data verdict',
+                        'zck_validate_data_checksum': 'initialised before and after the pass',
+                        'read_sig': 'initialised for the data once the header is read', 'zck_free': 'context clean-up',
+                        'zck_read_header': 'initialised for the data once the header is read'},
+}
+
+
+def check_hash_owners(ck, prog, config, clause):
+    """The running chunk digest accumulates the stored bytes of the chunk being read until the chunk ends and is
+    verified; the running data digest does the same for the whole body.  Closing, re-initialising or finalising one of
+    them anywhere else throws away (or double-counts) what was hashed so far: the chunk or the data then fails - or
+    passes - verification for a reason that has nothing to do with its bytes (a reset helper that also closes the
+    chunk digest breaks every file whose dictionary is imported in the middle of a read).  Who-may-call inventory over
+    hash_init / hash_close / hash_reset / hash_finalize with one of the two fields as argument."""
+    n = 0
+    for fn in sorted(prog.lib_funcs(), key=lambda f: f.qname):
+        for c in calls_of(fn, ('hash_init', 'hash_close', 'hash_reset', 'hash_finalize')):
+            for a in c.a[1:]:
+                sa_ = strip(a)
+                while sa_ is not None and ((sa_.k == 'un' and sa_.op == '&') or sa_.k == 'cast') and sa_.a:
+                    sa_ = strip(sa_.a[0])
+                f_ = sa_.op if sa_ is not None and sa_.k == 'mem' else None
+                if f_ in HASH_OWNERS:
+                    n += 1
+                    ok = fn.name in HASH_OWNERS[f_]
+                    ck.ob(clause, 'R7.hash-owner', fn.name, '%s(%s)' % (callee_name(c), f_), ok,
+                          '%s(%s) in %s: %s' % (callee_name(c), f_, fn.name, HASH_OWNERS[f_].get(fn.name)) if ok else
+                          '%s() calls %s() on the running digest %s: outside the functions that own its life cycle (%s) '
+                          'this discards or double-counts what has been hashed of the chunk / data in progress' % (
+                              fn.name, callee_name(c), f_, ', '.join(sorted(HASH_OWNERS[f_]))), c.file, c.line,
+                          config=config)
+    ck.min_instances('life-cycle calls on the running digests', n, 8)
+
+
+# ------------------------------------------------------------------ R2.import-guard
+def check_import_guard(ck, prog, config, clause, fn_name='zck_get_chunk_data', callee='import_dict'):
+    """The dictionary is loaded on the first data request of a context whatever chunk is asked for: the load relies on
+    the reader being in its initial position, so it must not be skipped for some requested chunk and done later.  The
+    conditions that dominate the call may speak about the dictionary and the context, not about the requested chunk."""
+    from ..cfg import must_pass_edges
+    from .common import node_containing
+    fn = prog.need_func(fn_name)
+    g = prog.cfg(fn)
+    chunk_params = [p for p in fn.params if 'zckChunk' in (p.t or '')]
+    ck.require(bool(chunk_params), '%s: chunk parameter not found' % fn_name)
+    cs = calls_of(fn, (callee,))
+    ck.require(bool(cs), '%s no longer calls %s' % (fn_name, callee))
+    # locals derived from the chunk parameter by a comparison (use_dict = (idx != dict))
+    derived = set(p.decl for p in chunk_params)
+    for s_ in walk_stmts(fn.body):
+        if s_.k == 'decl' and s_.e is not None:
+            se = strip(s_.e)
+            while se is not None and se.k == 'cast' and se.a:
+                se = strip(se.a[0])
+            if se is not None and se.k == 'bin' and se.op in ('==', '!=') and any(
+                    x.k == 'var' and x.decl in derived for x in walk(se)):
+                derived.add(s_.var.decl)
+    for c in cs:
+        nd = node_containing(g, c.uid)
+        bad = None
+        for b, lab in (must_pass_edges(g, nd) if nd is not None else []):
+            # a plain truthiness test of the parameter (NULL check) is fine; a comparison with another chunk is not
+            for x in walk(b.e):
+                if x.k == 'bin' and x.op in ('==', '!=') and const_value(x.a[1]) is None and strip(x.a[1]).k != 'null' and \
+                        any(y.k == 'var' and y.decl in derived for y in walk(x)):
+                    bad = b
+            sb = strip(b.e)
+            if sb is not None and sb.k == 'var' and sb.decl in derived and sb.decl not in set(p.decl for p in chunk_params):
+                bad = b
+        ck.ob(clause, 'R2.import-guard', fn.name, callee, bad is None,
+              '%s() is reached for every requested chunk (its guards speak about the dictionary only)' % callee
+              if bad is None else
+              '%s() is skipped depending on which chunk is requested (%s): a request for that chunk leaves the reader '
+              'positioned, and the load done by the next request starts from that stale position' % (callee, show(bad.e)[:60]),
+              c.file, c.line, config=config)
